@@ -12,7 +12,7 @@ EXPLANATION = (
     'each name); R14.b nothing else constructs an HttpRequest from a Request and both APIs call that one conversion; R14.c each '
     'endpoint emits exactly one effect, outside any loop; R14.d every builder method of the command API and of the capability '
     'API resolves to the same Request/http_types callees; R14.e every mutating method of crux_http::Request forwards to exactly the same-named '
-    'http_types method and changes nothing else. R14.h every builder setter of both APIs changes the request through its mutator on every non-error path, with a value computed from its argument (an argument is never skipped because it is empty or equal to a default). URL, query and body encoding inside url/http_types is trusted.')
+    'http_types method and changes nothing else. R14.h every builder setter of both APIs changes the request through its mutator on every non-error path, with a value computed from its argument (an argument is never skipped because it is empty or equal to a default). R14.i crux_http never chooses a media type itself: no Mime::sniff / from_extension / Body::set_mime anywhere in the crate (positive control in the fixtures), set_content_type only from the content_type(..) setters. URL, query and body encoding inside url/http_types is trusted.')
 
 HT = 'http_types_red_badger_temporary_fork'
 SIBLINGS = ['header', 'content_type', 'body', 'body_json', 'body_string', 'body_bytes', 'body_form', 'query', 'middleware']
@@ -59,7 +59,33 @@ def check(ctx, rep):
                 _edits.append('%s at %s' % (last_seg(t['callee']), f.where(bb)))
     rep.expect('R14.g', _http is not None and not _edits, 'no-url-edit', 'no in-place edit of a Url in crux_http',
                'crux_http edits a URL in place (%s): method, absolute URL including query and fragment must reach the shell as the app gave them' % _edits)
+    # R14.i: the media type the shell sees is the one the app gave, or the documented default of the body constructor it used: crux_http
+    # never picks one itself — no content sniffing, no Body::set_mime, and set_content_type only from the app's own content_type(..)
+    # (who-may-call over the crate; the first two expected zero)
+    rep.rule('R14.i', 'crux_http never chooses a media type: no Mime::sniff / from_extension / Body::set_mime; set_content_type only from content_type(..)', floor=3)
+    MIME_PICK = re.compile(r'::mime::Mime::(sniff|from_extension)$|::body::Body::set_mime$|::request::Request::copy_content_type_from_body$')
+    CT_SET_OK = {'crux_http::request::Request::set_content_type', 'crux_http::request_builder::RequestBuilder::content_type',
+                 'crux_http::command::RequestBuilder::content_type'}
+    _picks, _n_ct = [], 0
+    for f in (_http.built if _http else []):
+        if f.j.get('exp') or '::testing' in f.npath:
+            continue
+        for bb, t in f.calls():
+            cn = norm(t.get('callee') or '')
+            if MIME_PICK.search(cn):
+                _picks.append('%s at %s' % (last_seg(cn), f.where(bb)))
+            elif cn.endswith('::request::Request::set_content_type'):
+                _n_ct += 1
+                host = _http.host_root(f)
+                rep.expect('R14.i', host in CT_SET_OK, '%s|set_content_type' % host, 'the app\'s own content_type(..)',
+                           '%s sets a Content-Type on the request: only the content_type(..) setters may (the app did not ask for this one)' % f.where(bb))
+    rep.expect('R14.i', _http is not None and not _picks, 'no-media-type-chosen', 'no sniffing and no Body::set_mime in crux_http',
+               'crux_http chooses a media type itself (%s): the shell gets a Content-Type the app never specified in place of the documented default' % _picks)
+    if _n_ct < 3:
+        rep.bad('R14.i', 'sites', 'expected the three set_content_type sites (Request, both builders), found %d' % _n_ct)
     _ctl = ctx.crate('controls', 'crux_verif_controls')
+    _fs2 = _ctl.find('c15::sniff_media_type') if _ctl else []
+    rep.control('R14.i fires on Mime::sniff', bool(_fs2) and any(MIME_PICK.search(norm(t.get('callee') or '')) for _, t in _fs2[0].calls()))
     _fs = _ctl.find('c15::strip_fragment') if _ctl else []
     rep.control('R14.g fires on Url::set_fragment', bool(_fs) and any(URL_EDIT.match(norm(t.get('callee') or '')) for _, t in _fs[0].calls()))
     rep.assume('http_types Request::{method,url,take_body,set_body,insert_header,set_query}, Body::{from_json,from_string,from_form,'
